@@ -163,7 +163,7 @@ fn letter(i: usize) -> char {
     (b'a' + i as u8) as char
 }
 
-pub fn draw_plan(r: &mut Rng, gp: &GenParams, present_defs: &[usize], defs: &[Def], round: usize) -> EvalPlan {
+pub fn draw_plan(r: &mut Rng, gp: &GenParams, present_defs: &[usize], defs: &[Def], g: &GraphState, round: usize) -> EvalPlan {
     let policy = *r.pick(&[
         Policy::Uniform,
         Policy::Uniform,
@@ -214,7 +214,7 @@ pub fn draw_plan(r: &mut Rng, gp: &GenParams, present_defs: &[usize], defs: &[De
         });
     }
     if round > 0 && r.chance(gp.p_contract, 1000) {
-        let ephs: Vec<usize> = present_defs.iter().cloned().filter(|d| defs[*d].kind == Kind::Ephemeral).collect();
+        let ephs: Vec<usize> = present_defs.iter().cloned().filter(|d| g.kind_of(defs, *d) == Kind::Ephemeral).collect();
         if !ephs.is_empty() {
             let d = *r.pick(&ephs);
             plan.contract.insert(d, if r.chance(2, 3) { ContractMode::Semantic } else { ContractMode::Textual });
@@ -412,7 +412,7 @@ pub fn generate(seed: u64, gp: &GenParams) -> Scenario {
             }
         }
         let present: Vec<usize> = g.present.iter().cloned().collect();
-        let plan = draw_plan(&mut r, gp, &present, &defs, round);
+        let plan = draw_plan(&mut r, gp, &present, &defs, &g, round);
         rounds.push(Round { edits, plan });
     }
     Scenario { seed, profile: gp.profile.to_string(), cfg, defs, rounds }
@@ -440,7 +440,7 @@ fn draw_edit(r: &mut Rng, gp: &GenParams, cfg: &Config, defs: &[Def], g: &GraphS
     let present: Vec<usize> = g.present.iter().cloned().collect();
     let absent: Vec<usize> = (0..n).filter(|d| !g.present.contains(d)).collect();
     let w_absent = if gp.absent_bias { 4 } else { 2 };
-    let choice = r.weighted(&[w_absent, w_absent, 2, 2, 4, 3, if gp.p_multi > 300 { 4 } else { 2 }, 1, 2]);
+    let choice = r.weighted(&[w_absent, w_absent, 2, 2, 4, 3, if gp.p_multi > 300 { 4 } else { 2 }, 1, 2, 1]);
     match choice {
         0 => {
             if absent.is_empty() {
@@ -508,6 +508,17 @@ fn draw_edit(r: &mut Rng, gp: &GenParams, cfg: &Config, defs: &[Def], g: &GraphS
                 Some(Edit::RevertExt { def: *r.pick(&bumped) })
             }
         }
+        9 => {
+            // the job is re-declared with the other file kind (a FileGeneratingJob becomes a
+            // TempFileGeneratingJob or back); same id, same behaviour
+            let cands: Vec<usize> = (0..n).filter(|d| g.kind_of(defs, *d) != Kind::Always).collect();
+            if cands.is_empty() {
+                return None;
+            }
+            let d = *r.pick(&cands);
+            let to = if g.kind_of(defs, d) == Kind::Output { Kind::Ephemeral } else { Kind::Output };
+            Some(Edit::SetKind { def: d, kind: to })
+        }
         _ => None, // pure re-evaluation
     }
 }
@@ -565,7 +576,7 @@ pub fn corpus_variant(base: &Scenario, seed: u64, gp: &GenParams) -> Scenario {
             }
         }
         let present: Vec<usize> = g.present.iter().cloned().collect();
-        sc.rounds[ri].plan = draw_plan(&mut r, gp, &present, &sc.defs, ri);
+        sc.rounds[ri].plan = draw_plan(&mut r, gp, &present, &sc.defs, &g, ri);
     }
     sc
 }
